@@ -297,6 +297,19 @@ def main(argv: List[str]) -> int:
     if args.replay:
         with open(args.replay) as f:
             payload = json.load(f)
+        if payload.get("obligation") and not (payload.get("bounded_witness") or {}).get("case"):
+            # proof-side violation: replay the verifier's counterexample natively when there is one, else show the failed obligation and the solver output
+            print("obligation:", payload.get("obligation"), "| target:", payload.get("target"))
+            fn = str(payload.get("module") or "")
+            if payload.get("case") is not None and fn.startswith("contracts.") and "." in fn:
+                m, f_ = fn.rsplit(".", 1)
+                out = getattr(importlib.import_module(m), f_)(payload["case"])
+                print("native replay of the counterexample:", out.get("observed"))
+                return 1 if out.get("fails") else 0
+            print("no failing input was found by the verifier; solver output:")
+            for x in (payload.get("solver_output") or [])[:6]:
+                print("  ", x.get("path"), x.get("status"), str(x.get("detail"))[:300])
+            return 1
         return int(mod.replay(payload))
     try:
         rep = mod.run(tier=args.tier, seed=seed)
